@@ -46,6 +46,10 @@ pub proof fn lemma_lv_double(s: Seq<u64>, n: nat)
 
 //@ include lib/conv_spec.rs
 
+pub open spec fn vbit(v: nat, i: nat) -> bool { (v / pow2(i)) % 2 == 1 }
+// two's-complement reading of the low 128 bits
+pub open spec fn wrap_i128(x: int) -> i128 { if x < (B / 2) * B { x as i128 } else { (x - B * B) as i128 } }
+
 //@ extract src/from.rs enum FromUintError
 pub enum FromUintError<T> {
     Overflow(usize, T, T),
@@ -59,6 +63,7 @@ impl<const BITS: usize, const LIMBS: usize> Uint<BITS, LIMBS> {
 //@ import core from_limbs
 //@ import core as_limbs
 //@ import bitlen bit_len
+//@ import bits bit
 
     // for BITS <= 64:  x > MASK  <==>  x >= 2^BITS,  and  x & MASK == x mod 2^BITS
     pub proof fn lemma_mask_one_limb(x: u64)
@@ -307,6 +312,93 @@ impl<const BITS: usize, const LIMBS: usize> Uint<BITS, LIMBS> {
             result |= (value.limbs[1] as u128) << 64;
             if value.bit_len() > 128 {
                 return Err(FromUintError::Overflow(BITS, result, u128::MAX));
+            }
+            Ok(result)
+        }
+//@ end
+
+//@ extract src/from.rs fn try_from ctx="TryFrom<&Uint<BITS,LIMBS>>forbool" vis=none as=to_bool__try_from rewrite="-> Result < Self , Self :: Error >" => "-> Result<bool, FromUintError<bool> >" #1 rewrite="Self :: Error :: Overflow" => "FromUintError::Overflow" #1
+        fn to_bool__try_from(value: &Uint<BITS, LIMBS>) -> /*+*/(r:/*-*/ Result<bool, FromUintError<bool> >/*+*/)
+            requires value.wf()
+            ensures
+                value.val() < 2 ==> r == Ok::<bool, FromUintError<bool>>(value.val() == 1),
+                value.val() >= 2 ==> r == Err::<bool, FromUintError<bool>>(FromUintError::Overflow(BITS, value.val() % 2 == 1, true)),/*-*/
+        {
+            /*+*/proof {
+                lemma2_to64();
+                if BITS == 0 { value.lemma_wf_lt(); } else { lemma_lv_low_limb(value.limbs@, LIMBS as nat); }
+            }/*-*/
+            if BITS == 0 {
+                return Ok(false);
+            }
+            /*+*/proof {
+                assert forall|k: nat| #[trigger] is_bit_len(value.val(), k) implies ((k > 1) == (value.val() >= 2)) by {
+                    if value.val() != 0 {
+                        if k > 1 { if k > 2 { lemma_pow2_strictly_increases(1, (k - 1) as nat); } }
+                    }
+                }
+                assert(value.val() / pow2(0) == value.val()) by { assert(pow2(0) == 1); }
+                if value.val() < 2 { lemma_small_mod(value.val(), B as nat); }
+            }/*-*/
+            if value.bit_len() > 1 {
+                return Err(FromUintError::Overflow(BITS, value.bit(0), true));
+            }
+            Ok(value.as_limbs()[0] != 0)
+        }
+//@ end
+
+//@ extract src/from.rs fn try_from ctx="TryFrom<&Uint<BITS,LIMBS>>fori128" vis=none as=to_i128__try_from rewrite="-> Result < Self , Self :: Error >" => "-> Result<i128, FromUintError<i128> >" #1 rewrite="Self :: Error :: Overflow" => "FromUintError::Overflow" #1
+        fn to_i128__try_from(value: &Uint<BITS, LIMBS>) -> /*+*/(r:/*-*/ Result<i128, FromUintError<i128> >/*+*/)
+            requires value.wf()
+            ensures
+                (value.val() as int) < (B / 2) * B ==> r == Ok::<i128, FromUintError<i128>>(value.val() as i128),
+                (value.val() as int) >= (B / 2) * B ==> r == Err::<i128, FromUintError<i128>>(FromUintError::Overflow(BITS, wrap_i128((value.val() as int) % (B * B)), i128::MAX)),/*-*/
+        {
+            /*+*/proof {
+                lemma2_to64(); lemma_pow2_64(); lemma_pow2_adds(64, 64); lemma_pow2_adds(63, 64);
+                assert(i128::MAX as int == (B / 2) * B - 1) by(compute_only);
+                assert(pow2(63) == 0x8000_0000_0000_0000) by { lemma2_to64(); lemma_pow2_adds(32, 31); }
+                assert(pow2(63) as int == B / 2);
+                assert(pow2(127) as int == (B / 2) * B);
+                if BITS == 0 { value.lemma_wf_lt(); }
+            }/*-*/
+            if BITS == 0 {
+                return Ok(0);
+            }
+            let mut result = value.limbs[0] as i128;
+            if BITS <= 64 {
+                /*+*/proof {
+                    assert(LIMBS == 1);
+                    lemma_lv_single(value.limbs@, 1);
+                    assert((value.val() as int) < (B / 2) * B) by(nonlinear_arith) requires (value.val() as int) < B, B == 0x1_0000_0000_0000_0000;
+                }/*-*/
+                return Ok(result);
+            }
+            /*+*/let ghost l0 = value.limbs[0]; let ghost l1 = value.limbs[1];
+            proof {
+                assert(LIMBS >= 2);
+                assert(l1 < 0x8000_0000_0000_0000u64 ==> ((l0 as i128) | ((l1 as i128) << 64)) == (l0 as i128) + (l1 as i128) * 0x1_0000_0000_0000_0000i128) by(bit_vector);
+                assert(l1 >= 0x8000_0000_0000_0000u64 ==> ((l0 as i128) | ((l1 as i128) << 64)) == (l0 as i128) + ((l1 as i128) - 0x1_0000_0000_0000_0000i128) * 0x1_0000_0000_0000_0000i128) by(bit_vector);
+                Self::lemma_lv_low_two(value.limbs@, LIMBS as nat);
+                lemma_mul_is_commutative(B, l1 as int);
+                let low = (value.val() as int) % (B * B);
+                assert(low == l0 as int + B * l1 as int);
+                assert(l1 as int >= B / 2 ==> (l0 as int + (l1 as int - B) * B == low - B * B)) by(nonlinear_arith) requires low == l0 as int + B * l1 as int;
+                assert((l1 as int) < B / 2 ==> low < (B / 2) * B) by(nonlinear_arith) requires low == l0 as int + B * l1 as int, 0 <= l0 as int, (l0 as int) < B, B == 0x1_0000_0000_0000_0000;
+                assert(l1 as int >= B / 2 ==> low >= (B / 2) * B) by(nonlinear_arith) requires low == l0 as int + B * l1 as int, 0 <= l0 as int, B == 0x1_0000_0000_0000_0000;
+                assert forall|k: nat| #[trigger] is_bit_len(value.val(), k) implies ((k > 127) == ((value.val() as int) >= (B / 2) * B)) by {
+                    if value.val() != 0 {
+                        if k > 127 { if k > 128 { lemma_pow2_strictly_increases(127, (k - 1) as nat); } } else { if k < 127 { lemma_pow2_strictly_increases(k, 127); } }
+                    }
+                }
+                if (value.val() as int) < (B / 2) * B {
+                    assert((value.val() as int) < B * B) by(nonlinear_arith) requires (value.val() as int) < (B / 2) * B, B == 0x1_0000_0000_0000_0000;
+                    lemma_small_mod(value.val(), (B * B) as nat);
+                }
+            }/*-*/
+            result |= (value.limbs[1] as i128) << 64;
+            if value.bit_len() > 127 {
+                return Err(FromUintError::Overflow(BITS, result, i128::MAX));
             }
             Ok(result)
         }
